@@ -219,8 +219,22 @@ fn check_tape(tape: &[u8], gates: &Gates, stats: &mut Stats, counting: bool) -> 
     let lexical_error = choice.ratio(1, 8);
     if lexical_error {
         let d = docs.last_mut().unwrap();
-        // an unlexable character at the very start of the document (never inside a comment)
-        d.text.insert_str(0, "?\n");
+        // text that is no token: at the very start, at the very end, or directly in front of a
+        // lexeme (never inside a comment or a string)
+        let junk = *choice.pick(&["?\n", "?", "@", "~", "\u{feff}", "\u{1a}", "`", "\\", "!", "\u{20ac}", "\u{0}"]);
+        let lexeme_starts: Vec<usize> = d.lay.pieces.iter().filter(|p| p.lexeme.is_some()).map(|p| p.start).collect();
+        let at = match choice.below(3) {
+            0 => 0,
+            1 => d.text.len(),
+            _ => {
+                if lexeme_starts.is_empty() {
+                    0
+                } else {
+                    lexeme_starts[choice.below(lexeme_starts.len())]
+                }
+            }
+        };
+        d.text.insert_str(at, junk);
     }
     let uri = "file:///w/doc.st";
     let other = "file:///w/other.st";
@@ -278,6 +292,14 @@ fn check_tape(tape: &[u8], gates: &Gates, stats: &mut Stats, counting: bool) -> 
         gates.take_wanted();
     }
     if lexical_error {
+        // the junk must really be no token for the lexer (else the case says nothing)
+        let unlexable = crate::panicx::catch(|| !ironplc_parser::tokenize_program(&doc.text, &ironplc_dsl::core::FileId::from_string("d.st"), &Default::default()).1.is_empty()).unwrap_or(true);
+        if !unlexable {
+            if counting {
+                stats.class("doc.lexical-error.junk-is-a-token(skipped)");
+            }
+            return Ok(());
+        }
         if !resp["result"].is_null() || resp.get("error").is_some() {
             if resp.get("error").is_none() {
                 return Err(fail("partial-list", "the document contains text that is not a valid token, but the result is not null".into()));
